@@ -70,6 +70,12 @@ Schema(s) ==
          << DSec("t", {"MULTI","TITLE"}, << DInt("x", "5"), DPtr("p") >>) >>
     [] s = 8 -> (* two lists with defaults: interplay of consecutive list assignments *)
          << DIntList("la", <<"1","2">>), DStrList("lb", <<"x">>) >>
+    [] s = 18 -> (* two scalars: annotations whose text touches the comment brackets *)
+         << DInt("i", "7"), DStr("s", "d") >>
+    [] s = 17 -> (* validation callbacks on options that are dropped after use *)
+         << WithCb(WithFlags(DInt("old", "1"), {"DEPRECATED","DROP"}), {"valid"}),
+            WithCb(WithFlags(DIntList("ol", <<>>), {"DEPRECATED","DROP"}), {"valid"}),
+            WithCb(WithFlags(DInt("dep", "1"), {"DEPRECATED"}), {"parse", "valid"}), DInt("i", "7") >>
     [] s = 16 -> (* deprecated options next to ordinary ones at the top level *)
          << WithFlags(DInt("dep", "1"), {"DEPRECATED"}), WithFlags(DInt("old", "1"), {"DEPRECATED","DROP"}), DInt("i", "7") >>
     [] s = 15 -> (* declared sections inside a free-form section: they are free-form too *)
@@ -99,6 +105,8 @@ ValuePool(s) ==
     [] s = 14 -> {"1", "x", "true"}
     [] s = 15 -> {"1"}
     [] s = 16 -> {"1"}
+    [] s = 17 -> {"1"}
+    [] s = 18 -> {"1"}
 TitlePool(s) == IF s \in {2, 3, 4} THEN (IF Mode \in {"ignore", "ignorecmt"} THEN {"a"} ELSE {"a", "b"})
                 ELSE IF s = 7 THEN {"a", "A"} ELSE IF s \in {9, 15} THEN {"a"} ELSE {}
 
@@ -120,6 +128,8 @@ NlUsed == LET F[i \in 0..Len(hist)] == IF i = 0 THEN 0 ELSE F[i-1] + hist[i].nl 
 
 CommentTokens ==
   CASE Mode = "comments" -> {Tk("cmt", "c1", 0), Tk("cmt", "", 0)}
+                            (* comment texts that end / begin with the characters of the comment brackets *)
+                            \cup (IF sid = 18 THEN {Tk("cmt", "c *", 0), Tk("cmt", "/ c", 0)} ELSE {})
     [] Mode = "ignorecmt" -> {Tk("cmt", "c1", 0)}
     [] Mode = "lines"    -> {Tk("cmt", "c1", 0)} \cup
                             (IF NlUsed < NlBudget THEN {[Tk("cmt", "c1\nc2", 0) EXCEPT !.nlin = 1]} ELSE {})
